@@ -102,6 +102,25 @@ def run(replay=None):
             else:
                 toks[i] = rnd.choice(ALPHABET)
         add('P1', P1, entry, ' '.join(toks))
+    # (b'') every "( e1 or e2 ... )" of a valid property reduced to a parenthesised single event "( e1 )"
+    nsingle = 0
+    for entry, toks in pool:
+        if entry != 'property' or 'or' not in toks or '(' not in toks:
+            continue
+        i = toks.index('(')
+        try:
+            j = toks.index('or', i)
+            k = toks.index(')', j)
+        except ValueError:
+            continue
+        add('P1', P1, 'property', ' '.join(list(toks[:j]) + list(toks[k:])))
+        nsingle += 1
+        if nsingle >= (400 if thorough else 60):
+            break
+    for t in ('globally: no (a)', 'after (a): some b', 'globally: (a as A) causes b {y = @A.y}', 'until (q {x > 0}): a forbids (b)',
+              'globally: no a\nglobally: no (c)', 'globally: no ()', 'globally: no (a or)', 'globally: no ((a or b))'):
+        add('P1', P1, 'property', t)
+        add('P1', P1, 'specification', t)
     # (b') annotation blocks: every sequence of up to 3 annotation keys (with repeats and an unknown key) before a property
     import itertools as _it
     keys = {'id': '# id: p1', 'title': '# title: "t"', 'description': '# description: "d"', 'unknown': '# foo: "x"',
